@@ -471,6 +471,7 @@ func init() {
 				if err := json.Unmarshal(raw, &cs); err != nil {
 					panic(err)
 				}
+				c.Pending(&cs)
 				c06Run(&cs, r)
 				emit(&cs)
 			}
@@ -515,6 +516,7 @@ func init() {
 				}
 				cs.Sampled = true
 			}
+			c.Pending(cs)
 			c06Run(cs, r)
 			emit(cs)
 		}
